@@ -27,6 +27,15 @@ def _run(ctx):
             with open(b2["out"], errors="replace") as f:
                 if ("Invariant %s is violated" % inv) not in f.read():
                     raise lib.ToolError("the seeded fault %s of ProcessOnce.tla is not rejected by TLC" % v)
+    if pid == "C32":
+        # the wait between runs and the user signals (not a listed property; the replay records mismatches as divergences)
+        lib.tlc(ctx, "mc_serversignals", "MC_ServerSignals.tla", "MC_ServerSignals.cfg", workers=2, timeout=600)
+        for v, inv in (("rotate_restarts_wait", "DeadlineKept"), ("reload_ignored_while_running", "ReloadNotLost")):
+            b4 = lib.tlc(ctx, "mc_serversignals_bad_" + v, "MC_ServerSignals.tla", "MC_ServerSignals_bad_%s.cfg" % v, workers=2,
+                         timeout=600, expect_ok=False, count=False)
+            with open(b4["out"], errors="replace") as f:
+                if ("Invariant %s is violated" % inv) not in f.read():
+                    raise lib.ToolError("the seeded fault %s of ServerSignals.tla is not rejected by TLC" % v)
     gen = lib.tlc(ctx, "gen_runloop", "MC_RunLoop.tla", "Gen_RunLoop_thorough.cfg" if ctx.thorough else "Gen_RunLoop.cfg",
                   workers=1, timeout=1200, count=False)
     beh = ctx.path("runloop.ndjson")
